@@ -422,10 +422,11 @@ impl Resolver<'_> {
                         .try_cast(ExprKind::into_ident, Some("format"), "ident")?
                         .to_string();
                     match format.as_str() {
+                        // (what does not parse is the text, not the name of the format)
                         "csv" => from_text::parse_csv(&text)
-                            .map_err(|r| Error::new_simple(r).with_span(span))?,
+                            .map_err(|r| Error::new_simple(r).with_span(text_expr.span))?,
                         "json" => from_text::parse_json(&text)
-                            .map_err(|r| Error::new_simple(r).with_span(span))?,
+                            .map_err(|r| Error::new_simple(r).with_span(text_expr.span))?,
 
                         _ => {
                             return Err(Error::new(Reason::Expected {
